@@ -2016,6 +2016,20 @@ impl BytecodeVM {
         }
     }
 
+    /// Throw `exception` at the point where a suspended frame is being resumed (error answer to
+    /// an order, rejection of an awaited promise). It behaves exactly like a `throw` executed
+    /// there: handlers of the resumed frame first, then those of the calling frames, and an
+    /// async function frame turns it into a rejection of its promise. `Err` means nothing
+    /// handled it.
+    pub fn throw_on_resume(
+        &mut self,
+        interp: &mut Interpreter,
+        exception: JsValue,
+    ) -> Result<(), JsError> {
+        let guarded = Guarded::from_value(exception, &interp.heap);
+        self.handle_error_with_trampoline_unwind(interp, JsError::ThrownValue { guarded })
+    }
+
     /// Execute a single opcode
     fn execute_op(&mut self, interp: &mut Interpreter, op: Op) -> Result<OpResult, JsError> {
         match op {
